@@ -332,13 +332,14 @@ fn observe(p: &Packet) -> std::result::Result<(), String> {
         match &r.rdata {
             RData::TXT(t) => {
                 try_it("txt-attributes", &|| { let _ = t.attributes(); })?;
-                try_it("txt-long-attributes", &|| { let _ = t.clone().long_attributes(); })?;
-                try_it("txt-to-string", &|| { let _ = String::try_from(t.clone()); })?;
+                // a conversion that cannot succeed reports an error: the report itself can be shown to a user or logged
+                try_it("txt-long-attributes", &|| { if let Err(e) = t.clone().long_attributes() { let _ = (format!("{}", e), format!("{:?}", e), e.to_string()); } })?;
+                try_it("txt-to-string", &|| { if let Err(e) = String::try_from(t.clone()) { let _ = (format!("{}", e), format!("{:?}", e)); } })?;
             }
-            RData::HINFO(x) => { try_it("charstr", &|| { let _ = format!("{} {:?}", x.cpu, x.os); let _ = String::try_from(x.cpu.clone()); })?; try_it("format-charstr", &|| { format_every_way(&x.cpu); format_every_way(&x.os); })?; }
-            RData::NAPTR(x) => { try_it("charstr", &|| { let _ = format!("{} {} {}", x.flags, x.services, x.regexp); let _ = String::try_from(x.regexp.clone()); })?; }
-            RData::CAA(x) => { try_it("charstr", &|| { let _ = format!("{}", x.tag); })?; }
-            RData::ISDN(x) => { try_it("charstr", &|| { let _ = format!("{} {}", x.address, x.sa); })?; }
+            RData::HINFO(x) => { try_it("charstr", &|| { let _ = format!("{} {:?}", x.cpu, x.os); for cs in [&x.cpu, &x.os] { if let Err(e) = String::try_from(cs.clone()) { let _ = (format!("{}", e), format!("{:?}", e), e.to_string()); } } })?; try_it("format-charstr", &|| { format_every_way(&x.cpu); format_every_way(&x.os); })?; }
+            RData::NAPTR(x) => { try_it("charstr", &|| { let _ = format!("{} {} {}", x.flags, x.services, x.regexp); for cs in [&x.flags, &x.services, &x.regexp] { if let Err(e) = String::try_from(cs.clone()) { let _ = (format!("{}", e), format!("{:?}", e)); } } })?; }
+            RData::CAA(x) => { try_it("charstr", &|| { let _ = format!("{}", x.tag); if let Err(e) = String::try_from(x.tag.clone()) { let _ = format!("{} {:?}", e, e); } })?; }
+            RData::ISDN(x) => { try_it("charstr", &|| { let _ = format!("{} {}", x.address, x.sa); for cs in [&x.address, &x.sa] { if let Err(e) = String::try_from(cs.clone()) { let _ = format!("{} {:?}", e, e); } } })?; }
             RData::SVCB(x) => { try_it("svcb-params", &|| { for (k, val) in x.iter_params() { let _ = (k, val.len()); } let _ = x.get_param(1); })?; }
             RData::HTTPS(x) => { try_it("svcb-params", &|| { for (k, val) in x.0.iter_params() { let _ = (k, val.len()); } let _ = x.0.get_param(1); let _ = x.0.get_param(65535); })?; }
             _ => {}
